@@ -49,7 +49,7 @@ func c13RunImpl(c corr.Case) []string {
 	var re *regexp.Regexp
 	var r *Runner
 	srcH := map[int]bool{}
-	old := time.Unix(1_600_000_000, 0)
+	old := time.Unix(1_600_000_000, 123_456_789)
 	out := make([]string, 0, len(c.Lines))
 	for _, line := range c.Lines {
 		t := strings.Fields(line)
